@@ -48,6 +48,21 @@ pub struct SolverCache<D: DependencyProvider> {
     hint_dependencies_available: RefCell<BitVec>,
 }
 
+/// Removes the in-flight marker of a candidates request and notifies its
+/// listeners when dropped, unless the request already did so itself.
+struct InFlightGuard<'a> {
+    in_flight: &'a RefCell<HashMap<NameId, Rc<Event>>>,
+    package_name: NameId,
+}
+
+impl Drop for InFlightGuard<'_> {
+    fn drop(&mut self) {
+        if let Some(notifier) = self.in_flight.borrow_mut().remove(&self.package_name) {
+            notifier.notify(usize::MAX);
+        }
+    }
+}
+
 impl<D: DependencyProvider> SolverCache<D> {
     /// Constructs a new instance from a provider.
     pub fn new(provider: D) -> Self {
@@ -103,15 +118,30 @@ impl<D: DependencyProvider> SolverCache<D> {
                         // Found an in-flight request, wait for that request to finish and return
                         // the computed result.
                         in_flight.listen().await;
-                        self.package_name_to_candidates
-                            .get_copy(&package_name)
-                            .expect("after waiting for a request the result should be available")
+                        match self.package_name_to_candidates.get_copy(&package_name) {
+                            Some(id) => id,
+                            // The request we waited for was abandoned before it produced
+                            // a result (its future was dropped), so start over.
+                            None => {
+                                return Box::pin(self.get_or_cache_candidates(package_name)).await;
+                            }
+                        }
                     }
                     None => {
                         // Prepare an in-flight notifier for other requests coming in.
                         self.package_name_to_candidates_in_flight
                             .borrow_mut()
                             .insert(package_name, Rc::new(Event::new()));
+
+                        // If this future is dropped before the provider answered (e.g.
+                        // because solving was cancelled) the in-flight marker has to be
+                        // removed and its listeners woken. Otherwise a later request for
+                        // the same package waits forever for a request that no longer
+                        // exists.
+                        let _in_flight_guard = InFlightGuard {
+                            in_flight: &self.package_name_to_candidates_in_flight,
+                            package_name,
+                        };
 
                         // Otherwise we have to get them from the DependencyProvider
                         let candidates = self
